@@ -98,6 +98,9 @@ def addHead : List (Nat × List HeadInfo) → HeadInfo → List (Nat × List Hea
 /-- `head_groups` (insertion-ordered dict) -/
 def groupsOf (hs : List HeadInfo) : List (Nat × List HeadInfo) := hs.foldl addHead []
 
+/-- position of loop `l` in the insertion order of `head_groups` = index of the `random.choice` call of its group -/
+def loopIndex (hs : List HeadInfo) (l : Nat) : Nat := ((groupsOf hs).map (·.1)).idxOf l
+
 /-- the k-th group consumes the k-th choice -/
 def resolveGroups (one : Int) : List (Nat × List HeadInfo) → List Nat → List (HeadInfo × Fate)
   | [], _ => []
